@@ -13,7 +13,7 @@ from vmon.trace import lij_probe
 ID = 'C05'
 RULE = ('interstitial: random crystals/networks/energies (as C02), each jump class lowered by U(0.05,3); vacancy: crystal pool x '
         'random inputs (all groups randomised, sigma 0.3..1.5), each omega0/omega1/omega2 class lowered by U(0.05,3), plus a '
-        'large-omega2 variant (all omega2 barriers lowered by ln 1e9 first) and forced algorithm choices; non-trivial = the '
+        'large-omega2 variants (all omega2 barriers, or the first exchange class alone, lowered by ln 1e9 first) and forced algorithm choices; non-trivial = the '
         'lowered class changes some tensor by more than 1e-12 relative; distinct = (system, base input, class)')
 ASSUMPTIONS = ['margin: lambda_min(after - before) >= -1e-9 x |D| (observed >= -6e-16); -1e-6 x |Lss| when the large-omega2 algorithm is '
                'active (exchange rates 1e9 x bare: conditioning limits accuracy to ~1e-7)',
@@ -80,16 +80,17 @@ def run_vac(case, mon):
     for k in range(case['ninputs']):
         sigma = float(rng.choice([0.3, 0.7, 1.5]))
         args = work_vac.rand_args(rng, diff, 'VSB012', sigma)
-        variant = ('default', 'default', 'small', 'large', 'bigom2')[int(rng.integers(5))] if k > 0 else 'bigom2'
+        variant = ('default', 'small', 'large', 'bigom2', 'bigom2-one')[int(rng.integers(5))] if k > 0 else ('bigom2', 'bigom2-one')[case['idx'] % 2]
         kw = {}
         if variant == 'small': kw = {'large_om2': np.inf}
         if variant == 'large': kw = {'large_om2': 0.}
         if variant == 'bigom2': args[5] = args[5] - np.log(1e9)
+        if variant == 'bigom2-one': args[5][0] = args[5][0] - np.log(1e9)  # one exchange class fast, the others ordinary
         tags = work_vac.regime_tags(diff, args) + ['variant:' + variant]
-        if variant in ('large', 'bigom2'): tags.append('large_om2_algorithm')
+        if variant in ('large', 'bigom2', 'bigom2-one'): tags.append('large_om2_algorithm')
         desc = {'crystal': name, 'Nthermo': nth, 'variant': variant, 'args': args}
         if sample is None: sample = desc
-        mon.count('large_om2_branch_cases', variant in ('large', 'bigom2'))
+        mon.count('large_om2_branch_cases', variant in ('large', 'bigom2', 'bigom2-one'))
         try:
             with lij_probe(diff) as probe:
                 base = [np.array(x) for x in diff.Lij(*args, **kw)]
